@@ -199,7 +199,28 @@ func TestVerifReplay(t *testing.T) {
 	if err := json.Unmarshal(data, &m); err != nil {
 		t.Fatal(err)
 	}
+	defer func() {
+		if p := recover(); p != nil {
+			fmt.Printf("REPLAY-CONFIRMED panic: %v\n", p)
+		}
+	}()
 	switch {
+	case strings.Contains(m.Obligation, "SDFFilterFields.UnmarshalBinary#safety.slice"):
+		// a Create PDR whose SDF Filter IE announces a flow description longer than the IE (FD flag, length 0xffff)
+		g := &Gtp5g{log: logrus.WithField("replay", "forwarder")}
+		sdf := ie.New(ie.SDFFilter, []byte{0x01, 0x00, 0xff, 0xff, 'x'})
+		req := ie.NewCreatePDR(ie.NewPDRID(1), ie.NewPDI(ie.NewSourceInterface(ie.SrcInterfaceCore), sdf))
+		fmt.Println("Gtp5g.CreatePDR with an SDF Filter IE {flags FD, FD length 0xffff, 1 byte of description}")
+		err := g.CreatePDR(1, req)
+		fmt.Printf("returned without panic: %v\n", err)
+	case strings.Contains(m.Obligation, "OuterHeaderCreationFields.UnmarshalBinary#Uint32"):
+		// a Create FAR whose Outer Header Creation IE has the C-TAG bit set and three more octets
+		g := &Gtp5g{log: logrus.WithField("replay", "forwarder")}
+		ohc := ie.New(ie.OuterHeaderCreation, []byte{0x00, 0x40, 1, 2, 3})
+		req := ie.NewCreateFAR(ie.NewFARID(1), ie.NewForwardingParameters(ohc))
+		fmt.Println("Gtp5g.CreateFAR with an Outer Header Creation IE {description 0x0040 (C-TAG), 3 octets}")
+		err := g.CreateFAR(1, req)
+		fmt.Printf("returned without panic: %v\n", err)
 	case strings.Contains(m.Obligation, "Gtp5g.UpdateFAR#at{applyAction}.farid"):
 		// FAR 1 of session 1 is buffering two packets for PDR 1.  The SMF switches it to FORW with an Update FAR IE whose
 		// Apply Action child precedes the FAR ID child (any order is legal inside a grouped IE).
